@@ -27,6 +27,9 @@ CLAIMED = {
  "C12": dict(technique="static analysis: finite-domain (enum) reachability of panicking default branches through parameters and call sites up to the producer, type-switch coverage against every concrete type boxed into the interface, per-site caller-guard checks, SCC detection in the static call graph with a depth-bound test, error-flow at every parse call site",
              text="Totality half of the property only: decides for every mapping type and every call path that no explicit panic is reachable from the three parse entry points, and that recursion driven by the input has a bound; preservation of boolean meaning needs evaluation of trees and is not decided.",
              note="Trusted: go/ssa; enum values are declared constants; recursion through interface/function values is not followed; one frozen exemption (ParseSeqQL 'lexer is not end') with its reason in c12.go.", ref="§3 C12"),
+ "C03": dict(technique="static analysis: wire-signature extraction from the type-checked syntax tree of every encoder/decoder pair and comparison after normalisation; getter/setter offset+width agreement; shift/mask pairs; dominance order of sections vs read order; cache<->loader pairing; field-set comparison of the two construction paths; alias rule for pooled buffers; who-may-read rule for the raw MinTIDs column; lossless cache keys",
+             text="What the sealer writes and what the sealed loaders read are compared structurally for every table of the index file, and the two ways of building a Sealed fraction are compared field by field: a disagreement makes a sealed/reloaded fraction answer differently from the active one. Value-level logic at block borders is not decided.",
+             note="Trusted: go/types, go/ssa; the frozen pair table in checker/internal/props/c03.go; byte-slice payloads (BYTES) are not compared.", ref="§3 C03"),
 }
 
 NOT_YET = "check not built yet in this round (planned in DESIGN.md §3); nothing is claimed for it"
